@@ -11,6 +11,14 @@ client closes its input), the serve loop is still running, and a following probe
 Requests are chained on one connection (a new one is opened only after a failure), so every request is also
 judged as the *successor* of the previous one.
 
+Part S (well-framed, hostile segment): a zero-row shm POINTER request with the declared schema, naming a real
+client-owned segment, for a plain and an enum-typed (dictionary-encoded, i.e. schema-less in the segment) method x what
+the region holds {valid (control: dispatches), zeros, 0xFF, text, nothing, truncated, payloads of five other schemas,
+valid with a damaged tail, offset / length past the end}, followed on the same connection by a probe request.  Each
+case runs in a forked child, so that a native abort of the server is reported as a violation of this property instead
+of taking the check down.  Oracle: the request gets a response or a typed error stream, the probe is answered, serve()
+does not raise, the process lives.
+
 Part B (not IPC): every proper prefix of a valid request and every single-byte substitution (3 values) at each
 of the first 256 offsets.  Oracle: the peer is never left waiting: after the client has sent the bytes (and,
 if the server is still waiting for more, half-closed its write side) it observes a response stream or EOF; if
@@ -19,14 +27,16 @@ the server answered and kept the connection, the probe must work.
 
 from __future__ import annotations
 
+import enum
+import io
 import itertools
 import uuid
 from multiprocessing import shared_memory
-from typing import Any
+from typing import Any, Protocol
 
 import pyarrow as pa
 
-from vf.core.runner import Ctx
+from vf.core.runner import Ctx, HarnessError
 from vf.kit import mem, prog, raw
 from vf.kit.transports import Conn, MemStorage
 
@@ -36,7 +46,8 @@ ENGINE = "E1-SEQ"
 SHARDS = {"quick": 8, "thorough": 16}
 RULE = (
     "Part A: product grammar of well-framed requests (method x request_version x extra metadata key/value x column shape "
-    "x rows), chained on live connections with a probe after each; Part B: all prefixes and single-byte substitutions of a "
+    "x rows), chained on live connections with a probe after each; Part S: 2 methods x 16 region contents behind a "
+    "well-framed shm pointer request + probe, each in a forked child; Part B: all prefixes and single-byte substitutions of a "
     "valid request. non-trivial = request that differs from the valid one and was answered/ended by the real serve loop; "
     "distinct = grammar tuple"
 )
@@ -411,7 +422,217 @@ def make_foreign() -> shared_memory.SharedMemory:
     return seg
 
 
+# ------------------------------------------------------------------------------ part S: contents behind a shm pointer
+class _Tint(enum.Enum):
+    RED = "r"
+    GREEN = "g"
+
+
+class ShmSvc(Protocol):
+    """Two unary methods: one plain, one with an enum (= dictionary-encoded) parameter."""
+
+    def plain(self, n: int) -> int:
+        """Echo."""
+        ...
+
+    def tagged(self, a: int, e: _Tint) -> str:
+        """Describe."""
+        ...
+
+
+class ShmImpl:
+    def plain(self, n: int) -> int:
+        return n
+
+    def tagged(self, a: int, e: _Tint) -> str:
+        return f"{a}:{e.name}"
+
+
+def part_s_cases() -> list[dict[str, Any]]:
+    """A well-framed zero-row pointer request (declared schema, real client-owned segment) x what the region holds."""
+    contents = [
+        "valid", "zeros64", "ones64", "text64", "empty", "truncated-half", "truncated-8", "other:int32", "other:string", "other:large-string+dict",
+        "other:dict-only", "other:two-int64", "other:declared-of-the-other-method", "valid-then-garbage", "offset-past-end", "length-past-end",
+    ]
+    return [{"part": "S", "method": m, "content": c} for m in ("plain", "tagged") for c in contents]
+
+
+def _s_payload(method: str, content: str) -> tuple[Any, bytes | None]:
+    """-> (batch to place through allocate_and_write | None, raw bytes to place | None)."""
+    d = pa.dictionary(pa.int16(), pa.utf8())
+    decl = {
+        "plain": lambda: pa.RecordBatch.from_arrays([pa.array([7], pa.int64())], schema=pa.schema([pa.field("n", pa.int64(), nullable=False)])),
+        "tagged": lambda: pa.RecordBatch.from_arrays(
+            [pa.array([7], pa.int64()), pa.array(["GREEN"]).dictionary_encode().cast(d)],
+            schema=pa.schema([pa.field("a", pa.int64(), nullable=False), pa.field("e", d, nullable=False)]),
+        ),
+    }
+    if content in ("valid", "truncated-half", "truncated-8", "valid-then-garbage", "offset-past-end", "length-past-end"):
+        return decl[method](), None
+    if content == "zeros64":
+        return None, b"\x00" * 64
+    if content == "ones64":
+        return None, b"\xff" * 64
+    if content == "text64":
+        return None, (b"not an arrow stream " * 4)[:64]
+    if content == "empty":
+        return None, b""
+    if content == "other:int32":
+        return pa.RecordBatch.from_pydict({"n": pa.array([7], pa.int32())}), None
+    if content == "other:string":
+        return pa.RecordBatch.from_pydict({"n": pa.array(["seven"])}), None
+    if content == "other:large-string+dict":
+        return pa.RecordBatch.from_arrays([pa.array(["GREEN"], pa.large_utf8()), pa.array(["GREEN"]).dictionary_encode().cast(d)], names=["a", "e"]), None
+    if content == "other:dict-only":
+        return pa.RecordBatch.from_arrays([pa.array(["GREEN"]).dictionary_encode().cast(d)], names=["e"]), None
+    if content == "other:two-int64":
+        return pa.RecordBatch.from_pydict({"a": pa.array([1], pa.int64()), "e": pa.array([2], pa.int64())}), None
+    if content == "other:declared-of-the-other-method":
+        return decl["tagged" if method == "plain" else "plain"](), None
+    raise AssertionError(content)
+
+
+def _s_child(case: dict[str, Any]) -> dict[str, Any]:
+    """Runs in a forked child: build segment + request + probe, serve to EOF, report what came back."""
+    import logging
+
+    from vgi_rpc.rpc import RpcServer, rpc_methods
+    from vgi_rpc.shm import ShmSegment, make_shm_pointer_batch
+
+    logging.getLogger("vgi_rpc").setLevel(logging.CRITICAL)
+    seg = ShmSegment.create(1 << 18)
+    try:
+        method, content = case["method"], case["content"]
+        batch, rawbytes = _s_payload(method, content)
+        if batch is not None:
+            off, ln = seg.allocate_and_write(batch)
+        else:
+            assert rawbytes is not None
+            # place raw bytes: reserve a region with a dummy batch, then overwrite its start
+            dummy = pa.RecordBatch.from_pydict({"pad": pa.array([b"\x00" * 256], pa.binary())})
+            off, _ln = seg.allocate_and_write(dummy)
+            seg.buf[off : off + len(rawbytes)] = rawbytes
+            ln = len(rawbytes)
+        if content == "truncated-half":
+            ln = ln // 2
+        elif content == "truncated-8":
+            ln = 8
+        elif content == "valid-then-garbage":
+            seg.buf[off + ln - 8 : off + ln] = b"\xde\xad\xbe\xef" * 2
+        elif content == "offset-past-end":
+            off = seg.size + 4096
+        elif content == "length-past-end":
+            ln = seg.size * 2
+        psch = rpc_methods(ShmSvc)[method].params_schema
+        pb, pcm = make_shm_pointer_batch(psch, off, ln)
+        md = {b"vgi_rpc.shm_segment_name": seg.name.encode(), b"vgi_rpc.shm_segment_size": str(seg.size).encode()}
+        md.update(dict(pcm.items()))
+        req = raw.frame_request(method, pb, metadata=md)
+        probe = raw.frame_request("plain", pa.RecordBatch.from_arrays([pa.array([4242], pa.int64())], schema=rpc_methods(ShmSvc)["plain"].params_schema))
+        ct, st = mem.make_mem_pair()
+        ct.writer.write(req + probe)
+        ct.writer.close()
+        exc = None
+        try:
+            RpcServer(ShmSvc, ShmImpl(), server_id="s").serve(st)
+        except BaseException as e:  # noqa: BLE001
+            exc = f"{type(e).__name__}: {str(e)[:160]}"
+        st.close()
+        data = ct.reader.read()
+        ct.close()
+        out: dict[str, Any] = {"serve_exc": exc, "answers": []}
+        buf = io.BytesIO(data)
+        while buf.tell() < len(data) and len(out["answers"]) < 3:
+            try:
+                c = raw.classify(raw.read_stream(buf))
+                out["answers"].append({"error": None if c["error"] is None else c["error"].get("type"), "data": [list(d.values()) for d in c["data"]][:2]})
+            except Exception as e:  # noqa: BLE001
+                out["answers"].append({"undecodable": f"{type(e).__name__}: {str(e)[:100]}"})
+                break
+        return out
+    finally:
+        for fn in (seg.unlink, seg.close):
+            try:
+                fn()
+            except Exception:  # noqa: BLE001
+                pass
+
+
+def one_s(ctx: Ctx, case: dict[str, Any]) -> None:
+    """Fork, run the case in the child (a native abort there must not take the check down), judge in the parent."""
+    import json as _json
+    import os
+    import signal
+
+    rfd, wfd = os.pipe()
+    pid = os.fork()
+    if pid == 0:
+        code = 0
+        try:
+            os.close(rfd)
+            signal.alarm(60)
+            res = _s_child(case)
+            os.write(wfd, _json.dumps(res, default=str).encode())
+        except BaseException as e:  # noqa: BLE001
+            try:
+                os.write(wfd, _json.dumps({"child_exc": f"{type(e).__name__}: {str(e)[:200]}"}).encode())
+            except Exception:  # noqa: BLE001
+                pass
+            code = 3
+        finally:
+            os._exit(code)
+    os.close(wfd)
+    chunks = []
+    while True:
+        b = os.read(rfd, 65536)
+        if not b:
+            break
+        chunks.append(b)
+    os.close(rfd)
+    _pid, status = os.waitpid(pid, 0)
+    tag = f"{case['method']}:{case['content']}"
+    ctx.extra["partS_requests"] = ctx.extra.get("partS_requests", 0) + 1
+    if os.WIFSIGNALED(status):
+        sig = os.WTERMSIG(status)
+        ctx.case(nontrivial=("S", tag, "signal"), outcome=("S", "signal", sig))
+        ctx.fail(
+            f"process-died:shm-content:{case['content']}", f"a well-framed pointer request ({tag}) killed the SERVER PROCESS with signal {sig} "
+            f"({'abort' if sig == 6 else 'timeout' if sig == 14 else 'signal'}) instead of being answered", case,
+        )
+        return
+    try:
+        res = _json.loads(b"".join(chunks) or b"{}")
+    except ValueError:
+        res = {}
+    if "child_exc" in res or not res:
+        raise HarnessError(f"part S child failed for {tag}: {res.get('child_exc')}")
+    ans = res["answers"]
+    first = ans[0] if ans else None
+    probe_ok = len(ans) >= 2 and ans[1].get("error") is None and ans[1].get("data") == [[[4242]]]
+    kind = "none" if first is None else ("undecodable" if "undecodable" in first else ("error:" + str(first["error"]) if first["error"] else "ok"))
+    if kind == "ok":
+        ctx.extra["partS_dispatched"] = ctx.extra.get("partS_dispatched", 0) + 1
+    ctx.case(
+        sample={"case": case, "first": first, "probe_ok": probe_ok} if case["content"] in ("valid", "other:large-string+dict") else None,
+        nontrivial=("S", tag, kind), outcome=("S", kind, probe_ok, res["serve_exc"] is not None),
+    )
+    if case["content"] == "valid" and kind != "ok":
+        ctx.fail(f"valid-shm-request-refused:{case['method']}", f"{tag}: a valid request routed through the segment was answered {first}", case)
+    if first is None or "undecodable" in (first or {}):
+        ctx.fail(f"no-answer:shm-content:{case['content']}", f"{tag}: no complete response or typed error stream for the request (got {first}); serve() raised {res['serve_exc']}", case)
+    elif not probe_ok or res["serve_exc"] is not None:
+        ctx.fail(
+            f"conn-killed:shm-content:{case['content']}", f"{tag}: the request was answered ({kind}) but the connection did not keep serving: "
+            f"serve() raised {res['serve_exc']}, probe answer {ans[1] if len(ans) > 1 else None}", case,
+        )
+
+
 def run(ctx: Ctx) -> None:
+    # part S first: it forks, and must do so before part A starts server threads in this process
+    for case in part_s_cases():
+        if not ctx.mine():
+            continue
+        one_s(ctx, case)
     seg = make_foreign()
     try:
         part_a(ctx, seg.name)
@@ -429,6 +650,9 @@ def replay(ctx: Ctx, case: dict[str, Any]) -> None:
     ctx.extra.setdefault("partA_dispatched", 0)
     if case["part"] == "B":
         one_b(ctx, case)
+        return
+    if case["part"] == "S":
+        one_s(ctx, case)
         return
     seg = make_foreign()
     try:
